@@ -417,6 +417,24 @@ func (r *Runner) EditCollection(edits []CollEdit) *Obs {
 	return o
 }
 
+// AliasKey is a defined string type: a key of this type is not the name that
+// godi.Name registers, although it prints the same.
+type AliasKey string
+
+// ResolveAliasKey asks for (type, AliasKey(name)) where (type, name) is
+// registered: another identity, which nobody registered.
+func (r *Runner) ResolveAliasKey(tag int, id Ident) *Obs {
+	o := &Obs{Kind: "resolve-aliaskey", Scope: tag, Ident: id, StartSeq: r.W.NextSeq()}
+	undo := r.W.SetOpScope(tag)
+	guard(o, func() {
+		_, o.Err = r.target(tag).GetKeyed(RType(id.T), AliasKey(id.Key))
+	})
+	undo()
+	o.EndSeq = r.W.NextSeq()
+	r.addObs(o)
+	return o
+}
+
 // CloseScope closes the scope explicitly.
 func (r *Runner) CloseScope(tag int) *Obs {
 	rec := r.ScopeRecOf(tag)
